@@ -103,7 +103,21 @@ func runC03(run *Run, replay string) {
 			}
 			rr := rand.New(rand.NewSource(subSeed(run.Res.Seed, bi*1000+si+500)))
 			tbl := lcTable(a.Src)
-			for _, off := range cursorOffsets(rr, a.Src, false, o.PosSample) {
+			offs := cursorOffsets(rr, a.Src, false, o.PosSample)
+			// ... and, deterministically, the body-level position of every line (behind its indentation) and its end
+			for ls := 0; ls < len(a.Src); {
+				le := ls
+				for le < len(a.Src) && a.Src[le] != '\n' {
+					le++
+				}
+				fs := ls
+				for fs < le && (a.Src[fs] == ' ' || a.Src[fs] == '\t') {
+					fs++
+				}
+				offs = append(offs, fs, le)
+				ls = le + 1
+			}
+			for _, off := range offs {
 				pos, ok := tbl[off]
 				if !ok {
 					continue
@@ -161,7 +175,7 @@ func runC03(run *Run, replay string) {
 			}
 			r := rand.New(rand.NewSource(subSeed(run.Res.Seed, bi*1000+si)))
 			tbl := lcTable(s.Src)
-			for _, off := range append(cursorOffsets(r, s.Src, o.AllPos, o.PosSample), s.Offsets...) {
+			for _, off := range append(append(cursorOffsets(r, s.Src, o.AllPos, o.PosSample), s.Offsets...), callOffsets(s.Src)...) {
 				pos, ok := tbl[off]
 				if !ok {
 					continue
@@ -233,10 +247,22 @@ func runC04(run *Run, replay string) {
 	var cur *Scenario
 	var before string
 	var clones []interface{}
+	spareSeen := map[string]bool{}
+	checkSpare := func(w *World, when string, loc map[string]interface{}) {
+		for _, v := range spareViolationsOf(w) {
+			if spareSeen[v] {
+				continue
+			}
+			spareSeen[v] = true
+			run.Violate(Violation{Key: "C04/wrote-into-spare-capacity", Rule: "no query writes into the backing array of a slice the caller supplied (appending to it in place)",
+				Func: when, Detail: v, Replay: loc})
+		}
+	}
 	endScenario := func(loc map[string]interface{}) {
 		if cur == nil {
 			return
 		}
+		checkSpare(cur.W, "any query of the scenario", loc)
 		for i, p := range cur.W.Paths {
 			if eq, diff := deepEqual(clones[i], p.Ctx.Schema); !eq {
 				run.Violate(Violation{Key: "C04/schema-modified-deep", Rule: "the schema tree is structurally identical before and after any sequence of queries",
@@ -248,6 +274,7 @@ func runC04(run *Run, replay string) {
 	o.OnScenario = func(s *Scenario, loc map[string]interface{}, coll []CollectRes) {
 		cur = s
 		lastLoc = loc
+		checkSpare(s.W, "CollectReferenceTargets/CollectReferenceOrigins", loc)
 		// the collection calls are queries too: the schema must be what it was before them
 		for i, p := range s.W.Paths {
 			if eq, diff := deepEqual(clones[i], p.Ctx.Schema); !eq {
@@ -261,6 +288,8 @@ func runC04(run *Run, replay string) {
 		endScenario(lastLoc)
 		cur = nil
 		clones = nil
+		// every slice of the schema and every parameter list gets zeroed spare capacity (as slices built by append have)
+		padSpareSchemaAndFunctions(s.W)
 		for _, p := range s.W.Paths {
 			clones = append(clones, cloneSchema(p.Ctx.Schema))
 		}
